@@ -205,6 +205,10 @@ def evaluate(ctx, env, case, corrupt=None):
                         max_errors=setting["max_errors"], timeout=env["timeout"])
     if res.timed_out:
         ctx.inconclusive("watchdog:simgrid-mc:%s" % setting["reduction"])
+        with env["lock"]:
+            lst = ctx.extra.setdefault("watchdog_fired_on", [])
+            if len(lst) < 8:
+                lst.append({"setting": setting, "spec": text, "log_tail": res.log[-400:]})
         return
     ctx.evaluation()
     ctx.count("mc.runs")
@@ -215,15 +219,17 @@ def evaluate(ctx, env, case, corrupt=None):
         ctx.count("mc.refused_program_without_transition")
         return
     if res.rc not in (0, 1, 2, 4) or (res.aborted and not res.reports):
-        # the checker itself died (xbt_assert in a reduction, ...): not a *report*; this is C38's business
+        # the checker itself died (xbt_assert in a reduction or in the critical-transition search, ...): that is not a
+        # *report* (C38's business); the reports it printed before dying are judged below like any other
         ctx.count("mc.checker_abnormal_exit")
         with env["lock"]:
             lst = ctx.extra.setdefault("checker_abnormal_exits_not_judged_here", [])
             if len(lst) < 6:
                 lst.append({"what": res.aborted or "rc=%s" % res.rc, "setting": setting, "spec": text,
                             "log_tail": res.log[-600:]})
-        return
-    if res.rc != 0 and not any(reach.values()):
+        if not res.reports:
+            return
+    elif res.rc != 0 and not any(reach.values()):
         ctx.violation("C41:failure-verdict-on-clean-program:rc%d:%s" % (res.rc, tail),
                       "simgrid-mc exits with status %d (%s) on a program in which the reference finds no reachable failure\n%s"
                       % (res.rc, res.verdict(), text), dict(base_w, log=_short(res.log)))
